@@ -120,6 +120,28 @@ CLAIMED = {
         "of the key, as repaired). Byte-level secrecy of seal/signature is cryptography (assumed). Tied by byte scans of raw blocks "
         "for every link in all encodings, reader matrix, Verify/Join monitors, nonce-reference and block-byte correspondence.",
    technique="Coq proof modulo secretbox/signature oracles + byte-level differential correspondence vs Go", design="6/C18"),
+ "C01": dict(
+   text="Theorems (Props/C01.v): on logs satisfying the invariant (every replica of every well-formed history) an accepted unbounded "
+        "Join yields exactly the union of the two entry sets and preserves the invariant, hence commutativity, associativity and "
+        "idempotence on what replicas hold; heads and (total ordering) Values() are functions of the entry set, so replicas that "
+        "merged the same appended entries expose identical entries, heads and values; merging itself, an empty log or a log of "
+        "another id changes nothing. Tied by histories that finish with a complete all-pairs exchange in random order with repeats "
+        "(convergence monitor) and state correspondence after every operation.",
+   technique="Coq proof (Join = union under the log invariant; views are functions of the entry set) + differential correspondence vs Go", design="6/C01"),
+ "C04": dict(
+   text="Theorems (Props/C04.v): for every reachable log and every pointer count the appended entry names exactly the current heads "
+        "(each once), carries the writer's key as clock id, has a time strictly greater than every entry of the log, becomes the single "
+        "head; its skip references are entries of the log (all of which lie in its causal past), disjoint from next, duplicate free, "
+        "at most log2(pointer count)+2. Tied by field-by-field comparison of every appended entry with the model and direct monitors, "
+        "incl. wide unbalanced forks with more heads than pointers; the concurrent half is C13.",
+   technique="Coq proof (log invariant, traversal subset and power-of-two loop bound) + differential correspondence vs Go", design="6/C04"),
+ "C17": dict(
+   text="Theorems (Props/C17.v): along every well-formed history over one shared store every block is written after all blocks it links "
+        "to, so every prefix of the write trace (every crash point) is causally closed; every entry of every replica, its predecessors "
+        "and references, and the heads of every manifest are stored, and the store only grows. With C09's bridge theorem every "
+        "returned head/manifest loads to the state at publication. Tied by per-write closure monitors and store-trace correspondence; "
+        "the effect order inside Append (block write before publication) is also what the model's step encodes.",
+   technique="Coq proof (store-order invariant over histories) + per-write closure monitor and differential correspondence vs Go", design="6/C17"),
 }
 NOT_YET = "machinery for this property is still being built in this round (see DESIGN.md section 10); not claimed yet"
 
